@@ -139,10 +139,10 @@ static ENV_LOCK: Mutex<()> = Mutex::new(());
 // Per step, from the moment the step was applied.  The watcher sleeps 0.8-1.6 s after an error (reset, 410, an event it
 // cannot deserialize), 1.6-3.2 s after the next one in a row, 3.2-6.4 s after a third; while it sleeps after a reset / 410
 // the mock is not `synced` and the wait is extended anyway, but an undeserializable event leaves the connection up.
-const PATIENCE: Duration = Duration::from_millis(12000);
+const PATIENCE: Duration = Duration::from_millis(30000);
 const AFTER_SYNC: Duration = Duration::from_millis(2000); // ... and at least this long after the mock had delivered everything
-const HARD_CAP: Duration = Duration::from_millis(75000);
-const STABLE_FOR: Duration = Duration::from_millis(5000); // a wrong offer is only recorded once it has not changed for this long
+const HARD_CAP: Duration = Duration::from_millis(90000);
+const STABLE_FOR: Duration = Duration::from_millis(10000); // a wrong offer is only recorded once it has not changed for this long
 const RELIST_PATIENCE: Duration = Duration::from_millis(15000);
 const STEP_WAIT: Duration = Duration::from_millis(60000); // waiting for the client to (re)connect / ask for the LIST
 
